@@ -126,6 +126,36 @@ def synth_segments(rng, msg_sizes_per_segment, base_id, noise=False):
     return stream, segs
 
 
+def header_sized_segment(L, ident):
+    """one real segment whose ArchiveInfo header is exactly L bytes long (object references of one- and two-byte varints fill it up)"""
+    from numbers_parser.generated import TSTArchives_pb2 as TST
+    from numbers_parser.generated.mapping import NAME_ID_MAP
+    from numbers_parser.generated.TSPArchiveMessages_pb2 import ArchiveInfo
+    m = TST.HeaderStorageBucket(bucketHashFunction=1)
+    m.headers.add(index=1, numberOfCells=3, size=20.0, hidingState=0)
+    raw = m.SerializeToString()
+
+    def build(k, wide):
+        info = ArchiveInfo(identifier=ident)
+        mi = info.message_infos.add(type=NAME_ID_MAP["TST.HeaderStorageBucket"], length=len(raw))
+        mi.version.extend([1, 0, 5])
+        mi.object_references.extend([300] * wide + [1] * (k - wide))
+        return info.SerializeToString()
+    lo, hi = 0, L
+    while lo < hi:                       # sizes grow with the number of references: bisect to the neighbourhood, then search exactly
+        mid = (lo + hi) // 2
+        if len(build(mid, 0)) < L:
+            lo = mid + 1
+        else:
+            hi = mid
+    for k in range(max(0, lo - 6), lo + 2):
+        for wide in range(0, min(k, 5) + 1):
+            hdr = build(k, wide)
+            if len(hdr) == L:
+                return iwa.varint(L) + hdr + raw
+    return None
+
+
 def class_pair():
     """two real message classes with fully initialised sample payloads such that decoding a payload with the OTHER class and
     re-encoding it silently changes the bytes (known fields first, unknown fields last) - checked here, not assumed"""
@@ -309,6 +339,44 @@ def run(ctx):
         if ncase % 7 == 0:
             ctx.sample({"synthetic_stream_message_sizes": shp, "stream_bytes": T, "example_cuts": cutsets[-1][:6]})
     ctx.extra["synthetic_cases"] = ncase
+    # ---- the varint in front of every segment (Varint.tla): every carry pattern of the model as a real header length
+    ctx.stage("varint")
+    vcfg = 'CONSTANTS B = 4\nMaxN = 63\nBug = "%s"\nSPECIFICATION Spec\nINVARIANT RoundTrip\nINVARIANT Minimal\nINVARIANT Framed\n%sCHECK_DEADLOCK FALSE\n'
+    vectors = []
+
+    def vhandle(line):
+        m = re.match(r'^"N (\d+) <<([\d, ]*)>>"$', line)
+        if m:
+            vectors.append((int(m.group(1)), [int(x) for x in m.group(2).split(",")]))
+            return True
+        return False
+    ctx.tlc("Varint", vcfg % ("none", "INVARIANT Emit\n"), what="MC_Varint", stream_to=vhandle, timeout=300)
+    ctx.tlc("Varint", vcfg % ("StopOneLate", ""), what="Bug_StopOneLate", expect_violation=True, count=False)
+    real_digit = {0: 0, 1: 1, 2: 64, 3: 127}
+    lengths = sorted({sum(real_digit[d] * 128 ** i for i, d in enumerate(ds)) for _, ds in vectors})
+    lengths = [L for L in lengths if 16 <= L <= 40000]
+    lengths = sorted(set(lengths + [126, 127, 128, 129, 130, 255, 256, 16383, 16384, 16385, 16511, 16512]))
+    if q:
+        keep = {127, 128, 129, 16383, 16384, 16385, 16511, 16512}
+        lengths = [L for L in lengths if L in keep] + rng.sample([L for L in lengths if L not in keep], 6)
+    built = 0
+    for L in lengths:
+        seg = header_sized_segment(L, 7000 + built)
+        if seg is None:
+            continue
+        built += 1
+        tail, _ = synth_segments(rng, [[12]], 7900)
+        for stream in (seg, seg + tail, tail + seg):
+            T = len(stream)
+            framed = iwa.frame(stream, [min(65536, T - i) for i in range(0, T, 65536)], set())
+            ctx.evaluations += 1
+            ctx.distinct.add(("varint", L, T))
+            ev = member_event("synthetic", framed)
+            if ev is None:
+                raise Machinery("varint stage: the harness's own reader does not read its archive")
+            ev["size"] = len(framed)
+            syn_events.append(ev)
+    ctx.extra["varint_header_lengths"] = {"model_values": len(vectors), "real_header_lengths": built}
     # ---- message classes: every segment of IWAMessages.tla (regular messages of two classes, patches with every legal base) as a real archive
     ctx.stage("messages")
     segstates = []
